@@ -13,12 +13,16 @@ Mk(sh, n, pats, isref, isdrop) == [shape |-> sh, n |-> n, pats |-> pats, isref |
 Valid == {Mk(sh, n, p, FALSE, FALSE) : sh \in Shapes, n \in 0..MaxN, p \in UNION {PatSeqs(k) : k \in 0..MaxN}}
 Good  == {x \in Valid : Len(x.pats) = x.n}
            \cup UNION {{Mk("array", n, p, FALSE, FALSE) : p \in WithRest(k)} : n \in 0..MaxN, k \in 0..MaxN}
+\* large arities (tuples and tuple structs support up to 16 fields): all bound, and `_` at alternating positions
+Big == {Mk(sh, n, [q \in 1..n |-> IF k = 0 \/ q % 2 = k - 1 THEN "b" ELSE "u"], FALSE, FALSE)
+          : sh \in {"tuple", "tuple_struct", "braced", "array"}, n \in {4, 8, 15, 16}, k \in 0..2}
+
 \* misuse: wrong arity, reference, Drop type, `..` outside arrays, two rests
 Bad   == {x \in Valid : Len(x.pats) \in {x.n - 1, x.n + 1}}
            \cup {Mk(x.shape, x.n, x.pats, TRUE, FALSE) : x \in {y \in Valid : Len(y.pats) = y.n}}
            \cup {Mk(x.shape, x.n, x.pats, FALSE, TRUE) : x \in {y \in Valid : Len(y.pats) = y.n /\ IsStructShape(y.shape)}}
            \cup UNION {{Mk(sh, n, p, FALSE, FALSE) : p \in WithRest(k)} : sh \in Shapes \ {"array"}, n \in 1..MaxN, k \in 0..1}
-MCDescs == {x \in Good \cup Bad : x.shape = "array" \/ Rests(x.pats) = {} \/ TRUE}
+MCDescs == {x \in Good \cup Bad \cup Big : x.shape = "array" \/ Rests(x.pats) = {} \/ TRUE}
 
 Line(x) == [m |-> "Destructure", shape |-> x.shape, n |-> x.n, pats |-> x.pats,
             isref |-> IF x.isref THEN 1 ELSE 0, isdrop |-> IF x.isdrop THEN 1 ELSE 0,
